@@ -466,9 +466,56 @@ func corpus() []Scenario {
 		vnc("corpus-vnc-bpp24-then-update", vncPixFmt(24, 24, 0, 1, 255, 255, 255, 16, 8, 0), vncUpdReq(1)),
 		vnc("corpus-vnc-update-then-palette", vncUpdReq(1), vncPixFmt(8, 8, 0, 0, 7, 7, 3, 0, 3, 6)),
 		tftpRace,
+		tftpConcurrent(&rnd{hx.NewRand(11)}, "corpus-tftp-concurrent-wrq-data", 32, 299, false),
+		tftpConcurrent(&rnd{hx.NewRand(12)}, "corpus-tftp-concurrent-mixed", 48, 199, true),
 		// stalls without allocation (reported as tag, not a C01 violation)
 		udp("echo", "corpus-udp-echo-spins", bs("hi")),
 		udp("ntp", "corpus-udp-ntp-spins", make([]byte, 48)),
+	}
+	return out
+}
+
+// tftp under load: k concurrent clients from distinct source addresses, each handled in
+// its own goroutine as the server does for udp, each running a short upload; repeated
+// for many rounds so that any map operation outside the mutex (insert on WRQ, delete on
+// the terminating DATA block) meets another one.
+func tftpConcurrent(r *rnd, kind string, k, rounds int, mixed bool) Scenario {
+	wrq := func(name string) []byte { return cat([]byte{0, 2}, bs(name), []byte{0}, bs("octet"), []byte{0}) }
+	short := func() []byte { return cat([]byte{0, 3, 0, 1}, r.Bytes(r.PickInt([]int{0, 1, 9, 60}))) }
+	full := func() []byte { return cat([]byte{0, 3, 0, 1}, r.Bytes(512)) }
+	sc := Scenario{Svc: "tftp", Proto: "udp", Kind: kind, Rounds: rounds}
+	for i := 0; i < k; i++ {
+		name := fmt.Sprintf("f%d", i)
+		var prog [][]byte
+		which := 0
+		if mixed {
+			which = r.Intn(5)
+		}
+		switch which {
+		case 0, 1:
+			prog = [][]byte{wrq(name), short()} // upload of one terminating block
+		case 2:
+			blk2 := short()
+			blk2[3] = 2
+			prog = [][]byte{wrq(name), full(), blk2} // a full block, then the terminating one
+		case 3:
+			prog = [][]byte{wrq(name)} // upload never continued
+		default:
+			prog = [][]byte{short()} // DATA without a transfer
+		}
+		sc.Conns = append(sc.Conns, Conn{Segs: toB(prog)})
+	}
+	return sc
+}
+
+// generated tftp load scenarios (all tiers)
+func tftpLoadScenarios(hr *hx.Rand, n int) []Scenario {
+	r := &rnd{hr}
+	var out []Scenario
+	for i := 0; i < n; i++ {
+		k := r.PickInt([]int{16, 24, 32, 48, 64})
+		rounds := r.Range(150, 300) * 32 / k
+		out = append(out, tftpConcurrent(r, "tftp-load", k, rounds, i%2 == 1))
 	}
 	return out
 }
